@@ -259,7 +259,7 @@ def modelOut (s : Scn) : Out :=
     match s.cli.bind cliIn with
     | none => .bad "cli"
     | some i => treeOut i
-  | "copySourceItemX" | "relaxedX" | "renderX" | "structureX" | "importX" | "probeX" | "celX" | "cliX" => .nopanic
+  | "copySourceItemX" | "relaxedX" | "renderX" | "structureX" | "importX" | "probeX" | "celX" | "cliX" | "tmplX" => .nopanic
   | _ => .bad "fn"
 
 def render : Out → String
